@@ -268,12 +268,21 @@ func cmdCheck(args []string) int {
 	// that machine load never turns into an alarm. Skipped when many
 	// obligations are undecided (that is not a scheduling accident).
 	var retry []*oblResult
+	knownNames := map[string]bool{}
+	for _, f := range loadFindings(filepath.Join(verifDir, "known_findings.txt")) {
+		if f.Prop == *prop && !f.Fixed {
+			knownNames[f.Obligation] = true
+		}
+	}
 	for _, w := range work {
+		if knownNames[w.Full] {
+			continue // a recorded finding is expected not to discharge
+		}
 		if !w.O.Cover && (w.R.Answer == "timeout" || w.R.Answer == "unknown" || w.R.Answer == "error") {
 			retry = append(retry, w)
 		}
 	}
-	if len(retry) > 0 && len(retry) <= 6 {
+	if len(retry) > 0 && len(retry) <= 6 && *only == "" {
 		for _, w := range retry {
 			r := SolveHint(w.Ctx.Query(w.O, false), 150*time.Second, scratch, false, hints[w.Full])
 			if r.Answer == "unsat" || r.Answer == "sat" {
